@@ -340,7 +340,8 @@ fn parquet(out: &mut Out, api: &str, bytes: Vec<u8>, cap: usize) {
                     out.units += rg.num_rows().clamp(0, 1000) as usize;
                     for c in rg.columns() {
                         let _ = c.statistics().map(|s| (s.min_bytes_opt().map(|b| b.len()), s.max_bytes_opt().map(|b| b.len()), s.null_count_opt()));
-                        let _ = (c.byte_range(), c.compression(), c.num_values());
+                        // (byte_range() is documented to panic on negative offsets: not a safe accessor)
+                        let _ = (c.compression(), c.num_values(), c.data_page_offset(), c.compressed_size());
                         out.units += 1;
                     }
                 }
